@@ -244,7 +244,7 @@ func c08ltMisc(m dsl.Matcher) {
 
 var ltRuleSets = []ruleSet{
 	{name: "loadtime-types", files: []string{"lttypes.go"}, text: map[string]string{"lttypes.go": rulesLtTypes()}, allZoo: true},
-	{name: "loadtime-misc", files: []string{"ltmisc.go"}, text: map[string]string{"ltmisc.go": rulesLtMisc}, allZoo: true, freshBase: true},
+	{name: "loadtime-misc", files: []string{"ltmisc.go"}, text: map[string]string{"ltmisc.go": rulesLtMisc}, allZoo: true, freshBase: true, firstTouch: true},
 	// both files on one engine (merged rule sets: cloned gogrep patterns, shared filters)
 	{name: "loadtime-both", files: []string{"lttypes.go", "ltmisc.go"}, text: map[string]string{"lttypes.go": rulesLtTypes(), "ltmisc.go": rulesLtMisc}, allZoo: true},
 }
